@@ -40,6 +40,10 @@ import SpecVerif.Model.Sides
   (`GramInj`; over `ℝ`/`ℂ` implied by full column rank, `ls_gramInj_of_fullColRank`); `covar_psd_shift`,
   `modcovar_psd_shift` (`*_psd_mirror`) are the rotation by `m` bins (the mirror) of the AR spectrum.  Time
   reversal of the modified covariance method is `modcovar_timerev` (section 7, no contract needed).
+  Section 8b (`*_solver`): with the model's own Gauss–Jordan solver, verified in
+  `Proofs/Lemmas/GaussJordan.lean` for a lawful pivot test (`LawfulIsZero`), the contract hypotheses (both
+  `NormalEq` and `GramInj`) are consequences of the two calls having returned, so the same conclusions hold
+  with no hypothesis beyond "both calls return".
 -/
 namespace SpecVerif.C04
 open Finset SpecVerif SpecVerif.ArmaL SpecVerif.ShiftL SpecVerif.MtmL SpecVerif.AdaptL
@@ -776,10 +780,124 @@ theorem modcovar_psd_mirror [IsZero K] {ω : K} {nfft : ℕ} (hω : ω ^ nfft = 
   rw [hA, hE]
   exact arma2psd_conj hω hstar (some a) none e T hk
 
+/-! ### 8b. the same with the model's verified solver: no contract hypotheses
+
+The Gauss–Jordan elimination behind `lstsq` is verified in `Proofs/Lemmas/GaussJordan.lean` (C14, section 6):
+for a lawful pivot test (`LawfulIsZero`) whatever `arcovar` / `modcovar` return satisfies the normal
+equations (`C14.lsFit_normalEq`), and they return a value only when the Gram matrix is nonsingular
+(`C14.covar_succeeds_iff`).  The two `NormalEq` hypotheses AND the `GramInj` hypothesis of the theorems of
+section 8 are therefore consequences of the two calls having returned. -/
+section CovarSolver
+open SpecVerif.GJL
+variable [IsZero K] [LawfulIsZero K]
+
+/-- the Gram matrix of the data behind a successful `arcovar` / `modcovar` call is nonsingular -/
+theorem covar_gramInj_of_some (x : List K) (p : ℕ) (a : List K) (e : K) :
+    (arcovar x p = some (a, e) → GramInj (colR (corrmtx x p .covariance)) (x.length - p) p) ∧
+    (modcovar x p = some (a, e) → GramInj (colR (corrmtx x p .modified)) (2 * (x.length - p)) p) :=
+  ⟨fun h => (C14.covar_succeeds_iff x p).1.mp ⟨a, e, h⟩,
+   fun h => (C14.covar_succeeds_iff x p).2.mp ⟨a, e, h⟩⟩
+
+/-- **`arcovar` on modulated data, unconditional**: if `arcovar` returns `(a, e)` on `x` and `(a', e')` on
+`x_n·μ^n` (`|μ| = 1`) then `a' = twist μ a` and `e' = e`. -/
+theorem arcovar_mod_unique_solver {μ : K} (hμ : μ * star μ = 1) (x : List K) (p : ℕ)
+    (a a' : List K) (e e' : K)
+    (h : arcovar x p = some (a, e)) (h' : arcovar (modulate μ x) p = some (a', e')) :
+    a' = twist μ a ∧ e' = e :=
+  arcovar_mod_unique hμ x p a a' e e' h h' (C14.lsFit_normalEq _ _ p a e h).1
+    (C14.lsFit_normalEq _ _ p a' e' h').1 ((covar_gramInj_of_some x p a e).1 h)
+
+/-- **`modcovar` on modulated data, unconditional** -/
+theorem modcovar_mod_unique_solver {μ : K} (hμ : μ * star μ = 1) (x : List K) (p : ℕ)
+    (a a' : List K) (e e' : K)
+    (h : modcovar x p = some (a, e)) (h' : modcovar (modulate μ x) p = some (a', e')) :
+    a' = twist μ a ∧ e' = e :=
+  modcovar_mod_unique hμ x p a a' e e' h h' (C14.lsFit_normalEq _ _ p a e h).1
+    (C14.lsFit_normalEq _ _ p a' e' h').1 ((covar_gramInj_of_some x p a e).2 h)
+
+/-- **Marple's normalisation on modulated data, unconditional** -/
+theorem covarMarple_mod_unique_solver {μ : K} (hμ : μ * star μ = 1) (x : List K) (p : ℕ)
+    (a a' : List K) (e e' : K) :
+    (arcovarMarple x p = some (a, e) → arcovarMarple (modulate μ x) p = some (a', e') →
+      a' = twist μ a ∧ e' = e) ∧
+    (modcovarMarple x p = some (a, e) → modcovarMarple (modulate μ x) p = some (a', e') →
+      a' = twist μ a ∧ e' = e) := by
+  constructor
+  · intro h h'
+    obtain ⟨e0, h0, _⟩ := (C14.arcovarMarple_iff x p a e).mp h
+    obtain ⟨e1, h1, _⟩ := (C14.arcovarMarple_iff _ p a' e').mp h'
+    exact (covarMarple_mod_unique hμ x p a a' e e').1 h h' (C14.lsFit_normalEq _ _ p a e0 h0).1
+      (C14.lsFit_normalEq _ _ p a' e1 h1).1 ((covar_gramInj_of_some x p a e0).1 h0)
+  · intro h h'
+    obtain ⟨e0, h0, _⟩ := (C14.modcovarMarple_iff x p a e).mp h
+    obtain ⟨e1, h1, _⟩ := (C14.modcovarMarple_iff _ p a' e').mp h'
+    exact (covarMarple_mod_unique hμ x p a a' e e').2 h h' (C14.lsFit_normalEq _ _ p a e0 h0).1
+      (C14.lsFit_normalEq _ _ p a' e1 h1).1 ((covar_gramInj_of_some x p a e0).2 h0)
+
+/-- **covariance-method spectrum shift covariance, unconditional** (`pcovar`): the two-sided spectrum of
+the modulated data is the spectrum of the data rotated by `m` bins whenever both fits return. -/
+theorem covar_psd_shift_solver {ω : K} {nfft : ℕ} (hω : ω ^ nfft = 1) (hstar : star ω = ω⁻¹)
+    (x : List K) (p : ℕ) (T : K) {m : ℕ} (hm : m < nfft) (a a' : List K) (e e' : K)
+    (h : arcovar x p = some (a, e)) (h' : arcovar (modulate (ω⁻¹ ^ m) x) p = some (a', e')) :
+    arma2psd (twiddles ω nfft) (some a') none e' T nfft
+      = cshift (arma2psd (twiddles ω nfft) (some a) none e T nfft) m :=
+  covar_psd_shift hω hstar x p T hm a a' e e' h h' (C14.lsFit_normalEq _ _ p a e h).1
+    (C14.lsFit_normalEq _ _ p a' e' h').1 ((covar_gramInj_of_some x p a e).1 h)
+
+/-- **modified-covariance spectrum shift covariance, unconditional** (`pmodcovar`) -/
+theorem modcovar_psd_shift_solver {ω : K} {nfft : ℕ} (hω : ω ^ nfft = 1) (hstar : star ω = ω⁻¹)
+    (x : List K) (p : ℕ) (T : K) {m : ℕ} (hm : m < nfft) (a a' : List K) (e e' : K)
+    (h : modcovar x p = some (a, e)) (h' : modcovar (modulate (ω⁻¹ ^ m) x) p = some (a', e')) :
+    arma2psd (twiddles ω nfft) (some a') none e' T nfft
+      = cshift (arma2psd (twiddles ω nfft) (some a) none e T nfft) m :=
+  modcovar_psd_shift hω hstar x p T hm a a' e e' h h' (C14.lsFit_normalEq _ _ p a e h).1
+    (C14.lsFit_normalEq _ _ p a' e' h').1 ((covar_gramInj_of_some x p a e).2 h)
+
+/-- **`arcovar` on conjugated data, unconditional**: conjugated coefficients, same error -/
+theorem arcovar_conj_unique_solver (x : List K) (p : ℕ) (a a' : List K) (e e' : K)
+    (h : arcovar x p = some (a, e)) (h' : arcovar (x.map star) p = some (a', e')) :
+    a' = a.map star ∧ e' = e :=
+  arcovar_conj_unique x p a a' e e' h h' (C14.lsFit_normalEq _ _ p a e h).1
+    (C14.lsFit_normalEq _ _ p a' e' h').1 ((covar_gramInj_of_some x p a e).1 h)
+
+/-- **`modcovar` on conjugated data, unconditional** -/
+theorem modcovar_conj_unique_solver (x : List K) (p : ℕ) (a a' : List K) (e e' : K)
+    (h : modcovar x p = some (a, e)) (h' : modcovar (x.map star) p = some (a', e')) :
+    a' = a.map star ∧ e' = e :=
+  modcovar_conj_unique x p a a' e e' h h' (C14.lsFit_normalEq _ _ p a e h).1
+    (C14.lsFit_normalEq _ _ p a' e' h').1 ((covar_gramInj_of_some x p a e).2 h)
+
+/-- **covariance-method spectrum mirror, unconditional** -/
+theorem covar_psd_mirror_solver {ω : K} {nfft : ℕ} (hω : ω ^ nfft = 1) (hstar : star ω = ω⁻¹)
+    (x : List K) (p : ℕ) (T : K) (a a' : List K) (e e' : K)
+    (h : arcovar x p = some (a, e)) (h' : arcovar (x.map star) p = some (a', e'))
+    {k : ℕ} (hk : k < nfft) :
+    nth (arma2psd (twiddles ω nfft) (some a') none e' T nfft) k
+      = nth (arma2psd (twiddles ω nfft) (some a) none e T nfft) ((nfft - k) % nfft) :=
+  covar_psd_mirror hω hstar x p T a a' e e' h h' (C14.lsFit_normalEq _ _ p a e h).1
+    (C14.lsFit_normalEq _ _ p a' e' h').1 ((covar_gramInj_of_some x p a e).1 h) hk
+
+/-- **modified-covariance spectrum mirror, unconditional** -/
+theorem modcovar_psd_mirror_solver {ω : K} {nfft : ℕ} (hω : ω ^ nfft = 1)
+    (hstar : star ω = ω⁻¹) (x : List K) (p : ℕ) (T : K) (a a' : List K) (e e' : K)
+    (h : modcovar x p = some (a, e)) (h' : modcovar (x.map star) p = some (a', e'))
+    {k : ℕ} (hk : k < nfft) :
+    nth (arma2psd (twiddles ω nfft) (some a') none e' T nfft) k
+      = nth (arma2psd (twiddles ω nfft) (some a) none e T nfft) ((nfft - k) % nfft) :=
+  modcovar_psd_mirror hω hstar x p T a a' e e' h h' (C14.lsFit_normalEq _ _ p a e h).1
+    (C14.lsFit_normalEq _ _ p a' e' h').1 ((covar_gramInj_of_some x p a e).2 h) hk
+
+end CovarSolver
+
 section CovarExamples
 
 /-- a zero test on `ℝ` for the examples (the executable instances are `CRat` / `CFloat`) -/
 noncomputable local instance : IsZero ℝ := ⟨fun q => decide (q = 0)⟩
+
+/-- that test is lawful: the instance hypothesis `LawfulIsZero` of section 8b is satisfiable, and the two
+examples below (which exhibit `arcovar` / `modcovar` returning on the data and on the modulated data) are
+then the full hypotheses of `arcovar_mod_unique_solver` / `modcovar_mod_unique_solver` -/
+local instance : GJL.LawfulIsZero ℝ := GJL.lawful_decide
 
 /-- hypotheses of `arcovar_mod_unique` / `covar_psd_shift` (`K = ℝ`, `μ = -1 = ω⁻¹`, `NFFT = 2`, `m = 1`):
 on `x = [1,2,3,5]`, `p = 1` the model returns `a = -23/14`, `e = 3/14`; on the modulated data
